@@ -41,6 +41,12 @@ impl<K> OrphanStats<K> {
         for hash in &self.orphaned_blobs {
             let blob_path = self.cas_inner.paths.cas_file_path(hash);
             {
+                #[cfg(feature = "verif-hooks")]
+                crate::verif::before_mutex(
+                    "orphan_cleanup",
+                    crate::verif::LockId::Intents,
+                    &self.cas_inner.index.pending_intents,
+                );
                 let intents = self.cas_inner.index.pending_intents.lock();
                 let state = self.cas_inner.index.read_state();
                 let still_referenced = state.contains_blob_hash(hash);
@@ -108,6 +114,12 @@ impl<K> OrphanStats<K> {
             let src_path = self.cas_inner.paths.cas_file_path(hash);
             let dst_path = quarantine_dir.join(hash.to_string());
             {
+                #[cfg(feature = "verif-hooks")]
+                crate::verif::before_mutex(
+                    "orphan_cleanup",
+                    crate::verif::LockId::Intents,
+                    &self.cas_inner.index.pending_intents,
+                );
                 let intents = self.cas_inner.index.pending_intents.lock();
                 let state = self.cas_inner.index.read_state();
                 let still_referenced = state.contains_blob_hash(hash);
@@ -147,6 +159,12 @@ impl<K> OrphanStats<K> {
             return Ok(false); // Not in orphan list
         }
         let blob_path = self.cas_inner.paths.cas_file_path(hash);
+        #[cfg(feature = "verif-hooks")]
+        crate::verif::before_mutex(
+            "delete_orphan",
+            crate::verif::LockId::Intents,
+            &self.cas_inner.index.pending_intents,
+        );
         let intents = self.cas_inner.index.pending_intents.lock();
         let state = self.cas_inner.index.read_state();
         let still_referenced = state.contains_blob_hash(hash);
